@@ -66,6 +66,7 @@ def main():
     ap.add_argument("--src")
     ap.add_argument("--checks", help="comma separated property ids to run (default: the seeded property)")
     ap.add_argument("--tier", default="quick")
+    ap.add_argument("--tag", default="", help="prefix for the change number, e.g. r2- for the second round")
     ap.add_argument("--recheck", action="store_true", help="re-run the checks on the changes already filed under /verif/seeded")
     a = ap.parse_args()
     pid = a.pid.upper()
@@ -79,7 +80,7 @@ def main():
         demo = os.path.join(src, f"demo_{k}.py")
         if not (os.path.exists(patch) and os.path.exists(demo)):
             continue
-        d = f"/var/tmp/seedeval/{pid}-{k}"
+        d = f"/var/tmp/seedeval/{pid}-{a.tag}{k}"
         shutil.rmtree(d, ignore_errors=True)
         os.makedirs(d)
         try:
@@ -123,14 +124,14 @@ def main():
                         break
             caught = any(r["caught"] for r in results.values())
             verdict = "CAUGHT" if caught else "MISSED"
-            print(f"{pid}-{k}: tests_pass={tests_pass} demo_confirmed={demo_ok} -> {verdict}  "
+            print(f"{pid}-{a.tag}{k}: tests_pass={tests_pass} demo_confirmed={demo_ok} -> {verdict}  "
                   + "; ".join(f"{c}={'caught' if r['caught'] else 'rc%s' % r['exit']} {r['mechanisms'][:1]}" for c, r in results.items()))
             if not (tests_pass and demo_ok):
                 print(f"   NOT KEPT (tests_pass={tests_pass}, demo bad rc={rc_bad}, good rc={rc_good})")
                 print("   demo on patched copy:", out_bad[-300:].replace("\n", " | "))
                 print("   demo on /repo:", out_good[-300:].replace("\n", " | "))
                 continue
-            dest = os.path.join(ROOT, "seeded", f"{pid}-{k}")
+            dest = os.path.join(ROOT, "seeded", f"{pid}-{a.tag}{k}")
             os.makedirs(dest, exist_ok=True)
             shutil.copy(patch, os.path.join(dest, "patch.diff"))
             shutil.copy(demo, os.path.join(dest, "demo.py"))
@@ -143,7 +144,7 @@ def main():
                 parts = re.split(r"\n(?=#+ .*(?:[Cc]hange|CHANGE|Patch|patch)\s*%d)" % k, notes)
                 sect = parts[1][:3000] if len(parts) > 1 else notes[:3000]
             meta = {
-                "id": f"{pid}-{k}", "breaks_property": pid, "source": "independent sub-agent given only the property text and a scratch worktree",
+                "id": f"{pid}-{a.tag}{k}", "breaks_property": pid, "source": "independent sub-agent given only the property text and a scratch worktree",
                 "needs_to_manifest": sect.strip()[:2500],
                 "confirmed": {"repo_tests_pass_with_change": tests_pass, "demo_fails_with_change": True, "demo_passes_without_change": True,
                               "demo_output_with_change": out_bad[-400:]},
